@@ -777,8 +777,10 @@ fn timeout_orphan_case(prop: &str, idx: u64, root: &Path) -> CaseRec {
         3 => (dir.join("doc.md"), format!("{head}# slow\n\n```scrut\n$ exec 0</dev/null; {slow}\n{}ok\n```\n", format!("> # {}\n", "x".repeat(100)).repeat(3000)), vec![]),
         _ => (dir.join("doc.md"), format!("{head}# slow\n\n```scrut {{timeout: 300ms}}\n$ exec 1>&- 2>&-; {slow}\nok\n```\n"), vec![]),
     };
-    // `--timeout-seconds 0` is "no limit": that variant is the control (the command ends by itself, the marker appears)
-    let control = limit == 2;
+    // `--timeout-seconds 0` is "no limit": that variant is the control (the command ends by itself, the marker appears).
+    // Variant 3 (a shell that closes its STDIN in front of 300 KB of expression) was a spurious timeout with an abandoned
+    // shell until fix b5ab9a6 (the expression comes from a file now): it ends by itself as well, and passes
+    let control = limit == 2 || limit == 3;
     std::fs::write(&doc, text).unwrap();
     let mut cmd = std::process::Command::new(scrut_bin());
     cmd.arg("test").args(&args);
